@@ -26,8 +26,9 @@ Streams (the class is re-derived by the model driver from the case text):
 import os
 
 A63 = "a" * 63
-# nested ares_set_servers*() from callbacks (only safe with fixes/C01-setservers-from-callback.patch)
-NEST_SS = os.environ.get("C01_NEST_SS", "") == "1"
+# nested ares_set_servers*() from callbacks (safe since c731cbd, fixes/C01-setservers-from-callback.patch);
+# C01_NEST_SS=0 switches them off (trees without that fix)
+NEST_SS = os.environ.get("C01_NEST_SS", "1") != "0"
 
 KINDS = ["send", "query", "search", "gai", "ghbn", "ghba", "gni", "oquery", "osearch", "sendraw"]
 
@@ -129,7 +130,8 @@ class G:
                 out.append("cancel")
             elif r < 0.82 and "setservers" in allow and (not self.ss_used or NEST_SS):
                 self.ss_used = True
-                out.append("setservers %s" % rng.choice(["10.0.0.9", "10.0.0.1,10.0.0.7", "10.0.0.2", "-"]))
+                # (a list with a comma cannot be written inside a script: the comma separates the script's words)
+                out.append("setservers %s" % rng.choice(["10.0.0.9", "10.0.0.1", "10.0.0.2", "-"]))
             elif r < 0.9:
                 out.append(rng.choice(["qlen", "fds", "tmo"]))
             elif "req" in allow:
